@@ -179,10 +179,15 @@ def bwdOf (F : Frame) (W : Weights K) (S : Scal K) (c : Nat) : Array K :=
 def bwdAt (F : Frame) (W : Weights K) (S : Scal K) (c : Nat) (tbl : Array K) (p t : Nat) : K :=
   if c + 1 < F.nCols then tblAt tbl (p * W.nT + t) / S.bw2 c else 1
 
+/-- the forward projection column read by column `c` (none for column 0) -/
+def prevTbl (F : Frame) (W : Weights K) (S : Scal K) : Nat → Array K
+  | 0 => #[]
+  | c + 1 => fwdTbl F W S c
+
 /-- `forward_backward` of every cell of column `c`; entry `(idx, t, a)` at `(idx·nT + t)·nA + a` -/
 def fbCells (F : Frame) (W : Weights K) (S : Scal K) (c : Nat) : Array K :=
   let co := F.col c
-  let prev := match c with | 0 => #[] | c' + 1 => fwdTbl F W S c'
+  let prev := prevTbl F W S c
   let bt := bwdOf F W S c
   mkTbl (2 ^ co.nAct * W.nT * W.nA) (fun k =>
     cell W S c co prev (k / W.nA / W.nT) (k / W.nA % W.nT) (k % W.nA)
